@@ -80,7 +80,6 @@ WhyNoCallback(n, inc) ==
                           ELSE "callback for a line without newline before end of input was seen")
   ELSE IF inc /\ ~I!OpenAt(fed) THEN "Incomplete reported while no statement is open"
   ELSE IF ~inc /\ I!OpenAt(fed) THEN "Incomplete not reported while a statement is open"
-  ELSE IF inc THEN "Incomplete callback does not show exactly the finished pending statements"
   ELSE IF n = 0 THEN "empty callback while finished statements are pending"
   ELSE "callback does not hand over exactly the finished pending statements"
 
